@@ -12,6 +12,33 @@ HOT_NOTE = (SEQ_NOTE + " 'Notified' is read as 'dequeued by the reloader' (the c
             "armed over unordered reloads) are compared for presence only.")
 
 CHECKS = {
+ "C12": dict(
+  category="model_checking",
+  text="Watcher.tla models paths as component sequences and transcribes path_of, id_of_path and the notification table; TLC checks RoundTrip over every "
+       "spelling of the reported path ('.', 'x/..'), Injective and TableExact for every entry to depth 3 x every kind (three as-built behaviours are "
+       "negative controls). Every (entry, kind, spelling) is materialised on disk and fed as a synthetic notify event to the real id_of_path and "
+       "the real event handler bound to a test channel, with one and two roots and with paths outside the roots; real inotify histories check the "
+       "required entries end to end.",
+  design="5/C12", note="Needs the cfg-guarded re-export of the private watcher pieces (anchors.hook_needed); without hooks only the specification is checked.",
+  technique="TLA+ spec Watcher.tla checked by TLC; exhaustive spec->code replay through the real handler; real-watcher histories",
+ ),
+ "C16": dict(
+  category="model_checking",
+  text="SharedBytes.tla (clone/send/read/decrement/free as steps) is checked by TLC over every interleaving of 3 threads x 4 handles with two negative "
+       "controls, plus the layout theorem for every constructor path; Utf8.tla gives the verdict for every byte-class sequence up to length 4. "
+       "Generated behaviours run on real values owned by real threads through 8 constructor paths under a recording allocator; every class sequence "
+       "is concretised to boundary bytes for from_utf8 and the four serde visitors; eq/ord/hash are compared with slices.",
+  design="5/C16", note="Memory orderings are not modelled; real interleavings are at whole-call granularity; the allocator ledger is an observation.",
+  technique="TLA+ specs SharedBytes.tla, Utf8.tla checked by TLC; spec->code replay with allocation ledger; exhaustive UTF-8 class enumeration",
+ ),
+ "C17": dict(
+  category="model_checking",
+  text="OnceInit.tla is checked by TLC over every interleaving of 3 threads x 4 attempts x outcomes for both seed kinds (negative control: seed "
+       "dropped inside the initialiser); the real cell goes through every outcome sequence up to length 4 on both code paths and with a "
+       "panicking seed destructor with counted seeds/values, and through 300 races of 2-4 threads.",
+  design="5/C17", note="Interleavings of the real races are OS-produced.",
+  technique="TLA+ spec OnceInit.tla checked by TLC; exhaustive outcome-sequence replay on the real cell with drop accounting",
+ ),
  "C04": dict(
   category="model_checking",
   text="Sources.tla grows every tree up to a node bound, freezes it into an archive with every subset of explicit directory members and "
